@@ -43,12 +43,246 @@ theorem le_floorNat {x : Rat} {n : Nat} (h : (n : Rat) ≤ x) : n ≤ x.floor.to
 
 /-- `x as u64` at exact arithmetic, for `lo ≤ x < hi + 1`. -/
 theorem toU64_between (e fin infv) {x : Rat} {lo hi : Nat} (hlo : (lo : Rat) ≤ x)
-    (hhi : x < (hi : Rat) + 1) (hb : hi ≤ u64Max) :
+    (hhi : x < (hi : Rat) + 1) (hb : lo ≤ u64Max) :
     lo ≤ (ratScalar e fin infv).toU64 x ∧ (ratScalar e fin infv).toU64 x ≤ hi := by
   have a := le_floorNat hlo
   have b := floorNat_le hhi
   show lo ≤ (if x.floor.toNat > u64Max then u64Max else x.floor.toNat) ∧
        (if x.floor.toNat > u64Max then u64Max else x.floor.toNat) ≤ hi
   split <;> omega
+
+variable (e : Rat → Rat) (fin : Rat → Bool) (infv : Rat)
+
+theorem fmax_R (a b : Rat) : @fmax Rat (ratScalar e fin infv) a b = if a < b then b else a := by
+  simp [fmax, Scalar.lt, Scalar.isNaN]
+theorem fmin_R (a b : Rat) : @fmin Rat (ratScalar e fin infv) a b = if b < a then b else a := by
+  simp [fmin, Scalar.lt, Scalar.isNaN]
+theorem natCast_le_R {a b : Nat} (h : a ≤ b) : (a : Rat) ≤ (b : Rat) := by exact_mod_cast h
+theorem natCast_lt_R {a b : Nat} (h : a < b) : (a : Rat) < (b : Rat) := by exact_mod_cast h
+
+/-- `⌊t·k/1000⌋` computed in exact arithmetic is the integer division. -/
+theorem toU64_permille (t k : Nat) (ht : t * k / 1000 ≤ u64Max) :
+    (ratScalar e fin infv).toU64 (((t : Rat) * (k : Rat)) / (1000 : Rat)) = t * k / 1000 := by
+  have h1 : t * k / 1000 * 1000 ≤ t * k := Nat.div_mul_le_self _ _
+  have h2 : t * k < (t * k / 1000 + 1) * 1000 := by omega
+  have c1 : ((t * k / 1000 * 1000 : Nat) : Rat) ≤ ((t * k : Nat) : Rat) := natCast_le_R h1
+  have c2 : ((t * k : Nat) : Rat) < (((t * k / 1000 + 1) * 1000 : Nat) : Rat) := natCast_lt_R h2
+  push_cast at c1 c2
+  have := toU64_between e fin infv (x := ((t : Rat) * (k : Rat)) / (1000 : Rat)) (lo := t * k / 1000)
+    (hi := t * k / 1000) (by grind) (by grind) ht
+  omega
+
+theorem toU64_natCast (n : Nat) (h : n ≤ u64Max) : (ratScalar e fin infv).toU64 (n : Rat) = n := by
+  have := toU64_between e fin infv (x := (n : Rat)) (lo := n) (hi := n) (by grind) (by grind) h
+  omega
+
+theorem nextRate_climb_R (ps : CcState) (mode : ClimbMode) (t so : Nat) (ht : 100000 ≤ t) :
+    let x := @nextRate Rat (ratScalar e fin infv) .climbing ps mode t so
+    (t : Rat) ≤ x ∧ x * 1000 ≤ (t : Rat) * ((1000 + stepPermille mode : Nat) : Rat) ∧
+      (x = (t : Rat) ∨ x ≤ 2 * (so : Rat)) := by
+  have h0 : (100000 : Rat) ≤ (t : Rat) := by exact_mod_cast ht
+  intro x
+  cases mode <;>
+    simp only [x, nextRate, stepPermille, AI_STEP_PERMILLE_eq, HAI_STEP_PERMILLE_eq,
+      FAST_RECOVERY_STEP_PERMILLE_eq, MIN_TARGET_BPS_eq, fmax_R, fmin_R, zero, Scalar.ofNat, Scalar.add,
+      Scalar.sub, Scalar.mul, Scalar.div] <;>
+    push_cast <;> grind
+
+theorem u64Max_big : 1000000000 ≤ u64Max := by decide
+
+/-- Climbing: the new target. -/
+theorem tickTarget_climb_R (ps : CcState) (mode : ClimbMode) (t so : Nat)
+    (ht : 100000 ≤ t) (ht2 : t ≤ 200000000) :
+    let tt := @tickTarget Rat (ratScalar e fin infv) .climbing ps mode t so
+    t ≤ tt ∧ tt ≤ 200000000 ∧ tt * 1000 ≤ t * (1000 + stepPermille mode) ∧ (t < tt → tt ≤ 2 * so) := by
+  intro tt
+  obtain ⟨a, b, c⟩ := nextRate_climb_R e fin infv ps mode t so ht
+  have hb := u64Max_big
+  generalize hx : @nextRate Rat (ratScalar e fin infv) .climbing ps mode t so = x at a b c
+  have htt : tt = clampNat ((ratScalar e fin infv).toU64 x) 100000 200000000 := by
+    simp only [tt, tickTarget, hx, MIN_TARGET_BPS_eq, MAX_TARGET_BPS_eq]
+  generalize hP : t * (1000 + stepPermille mode) = P at *
+  have h1 : P / 1000 * 1000 ≤ P := Nat.div_mul_le_self _ _
+  have h2 : P < (P / 1000 + 1) * 1000 := by omega
+  have c2 : ((P : Nat) : Rat) < (((P / 1000 + 1) * 1000 : Nat) : Rat) := natCast_lt_R h2
+  have hPc : ((P : Nat) : Rat) = (t : Rat) * ((1000 + stepPermille mode : Nat) : Rat) := by
+    rw [← hP]; push_cast; rfl
+  push_cast at c2
+  have u1 := toU64_between e fin infv (x := x) (lo := t) (hi := P / 1000) a (by grind) (by omega)
+  rcases c with c | c
+  · have u2 := toU64_between e fin infv (x := x) (lo := t) (hi := t) a (by grind) (by omega)
+    clear_value tt; subst htt; unfold clampNat
+    split <;> (try split) <;> omega
+  · have u2 := toU64_between e fin infv (x := x) (lo := t) (hi := 2 * so) a (by push_cast; grind) (by omega)
+    clear_value tt; subst htt; unfold clampNat
+    split <;> (try split) <;> omega
+
+/-- BackingOff: the new target. -/
+theorem tickTarget_backoff_R (ps : CcState) (mode : ClimbMode) (t so : Nat)
+    (ht : 100000 ≤ t) (ht2 : t ≤ 200000000) :
+    let tt := @tickTarget Rat (ratScalar e fin infv) .backingOff ps mode t so
+    tt ≤ t ∧ 100000 ≤ tt ∧ t * 850 / 1000 ≤ tt ∧ min so t ≤ tt := by
+  have h0 : (100000 : Rat) ≤ (t : Rat) := by exact_mod_cast ht
+  intro tt
+  have hb := u64Max_big
+  have hx : ∀ x, @nextRate Rat (ratScalar e fin infv) .backingOff ps mode t so = x →
+      x ≤ (t : Rat) ∧ (t : Rat) * 850 / 1000 ≤ x ∧ ((so : Rat) ≤ x ∨ (t : Rat) ≤ x) := by
+    intro x hx
+    simp only [nextRate, BACKOFF_PERMILLE_eq, fmax_R, fmin_R, Scalar.ofNat, Scalar.mul, Scalar.div] at hx
+    push_cast at hx
+    grind
+  generalize hxx : @nextRate Rat (ratScalar e fin infv) .backingOff ps mode t so = x at hx
+  obtain ⟨a, b, c⟩ := hx x rfl
+  have htt : tt = clampNat ((ratScalar e fin infv).toU64 x) 100000 200000000 := by
+    simp only [tt, tickTarget, hxx, MIN_TARGET_BPS_eq, MAX_TARGET_BPS_eq]
+  have h1 : t * 850 / 1000 * 1000 ≤ t * 850 := Nat.div_mul_le_self _ _
+  have c1 : ((t * 850 / 1000 * 1000 : Nat) : Rat) ≤ ((t * 850 : Nat) : Rat) := natCast_le_R h1
+  push_cast at c1
+  have u1 := toU64_between e fin infv (x := x) (lo := t * 850 / 1000) (hi := t) (by grind) (by grind) (by omega)
+  rcases c with c | c
+  · by_cases hso : so ≤ t
+    · have u2 := toU64_between e fin infv (x := x) (lo := so) (hi := t) c (by grind) (by omega)
+      clear_value tt; subst htt; unfold clampNat
+      split <;> (try split) <;> omega
+    · have : (t : Rat) ≤ (so : Rat) := natCast_le_R (by omega)
+      have u2 := toU64_between e fin infv (x := x) (lo := t) (hi := t) (by grind) (by grind) (by omega)
+      clear_value tt; subst htt; unfold clampNat
+      split <;> (try split) <;> omega
+  · have u2 := toU64_between e fin infv (x := x) (lo := t) (hi := t) c (by grind) (by omega)
+    clear_value tt; subst htt; unfold clampNat
+    split <;> (try split) <;> omega
+
+/-- Drain entry: the new target is exactly `max ⌊0.75·t⌋ MIN`. -/
+theorem tickTarget_drain_entry_R (ps : CcState) (mode : ClimbMode) (t so : Nat) (hps : ps ≠ .drain)
+    (ht : 100000 ≤ t) (ht2 : t ≤ 200000000) :
+    @tickTarget Rat (ratScalar e fin infv) .drain ps mode t so = max (t * 750 / 1000) 100000 := by
+  have hb := u64Max_big
+  have := toU64_permille e fin infv t 750 (by omega)
+  simp only [tickTarget, nextRate, hps, DRAIN_PERMILLE_eq, MIN_TARGET_BPS_eq, MAX_TARGET_BPS_eq, Scalar.ofNat,
+    Scalar.mul, Scalar.div, ne_eq, not_false_eq_true, ite_true]
+  push_cast at this ⊢
+  rw [this]; unfold clampNat
+  split <;> (try split) <;> omega
+
+/-- Holding, staying in Drain, (unreachable) Bootstrap, and Climbing with no measured traffic:
+the target is unchanged. -/
+theorem tickTarget_same_R (next ps : CcState) (mode : ClimbMode) (t so : Nat)
+    (h : next = .holding ∨ next = .bootstrap ∨ (next = .drain ∧ ps = .drain) ∨ (next = .climbing ∧ so = 0))
+    (ht : 100000 ≤ t) (ht2 : t ≤ 200000000) :
+    @tickTarget Rat (ratScalar e fin infv) next ps mode t so = t := by
+  have hb := u64Max_big
+  have := toU64_natCast e fin infv t (by omega)
+  rcases h with h | h | ⟨h, h'⟩ | ⟨h, h'⟩ <;> subst h <;> (try subst h') <;>
+    simp only [tickTarget, nextRate, MIN_TARGET_BPS_eq, MAX_TARGET_BPS_eq, Scalar.ofNat, ne_eq,
+      not_true_eq_false, ite_false, Nat.lt_irrefl, gt_iff_lt] <;>
+    (rw [this]; unfold clampNat; split <;> (try split) <;> omega)
+
+/-- `sane_observed` at exact arithmetic: `min observed (4 · max target 1e6)`. -/
+theorem saneObserved_R (t obs : Nat) (ht2 : t ≤ 200000000) :
+    @saneObserved Rat (ratScalar e fin infv) t obs = min obs (4 * max t 1000000) := by
+  have hb := u64Max_big
+  simp only [saneObserved, INITIAL_TARGET_BPS_eq, cOutlier, Scalar.lit, CC_OUTLIER_FACTOR_num,
+    CC_OUTLIER_FACTOR_den, fmin_R, Scalar.ofNat, Scalar.mul]
+  generalize hm : max t 1000000 = m
+  have hm2 : m ≤ 200000000 := by omega
+  have e4 : ((4 : Int) : Rat) / ((1 : Nat) : Rat) * (m : Rat) = ((4 * m : Nat) : Rat) := by
+    push_cast; grind
+  rw [e4]
+  by_cases h : 4 * m < obs
+  · have h4 : ((4 * m : Nat) : Rat) < (obs : Rat) := natCast_lt_R h
+    rw [if_pos h4, toU64_natCast e fin infv (4 * m) (by omega)]
+    omega
+  · have hc : (obs : Rat) ≤ ((4 * m : Nat) : Rat) := natCast_le_R (by omega)
+    have h4 : ¬ ((4 * m : Nat) : Rat) < (obs : Rat) := by grind
+    rw [if_neg h4, toU64_natCast e fin infv obs (by omega)]
+    omega
+
+section generic
+variable {F : Type} [Scalar F]
+
+omit [Scalar F] in
+theorem updateBackoffEfficacy_keeps (s : St F) (lh : Bool) (pm : Nat) :
+    let s' := updateBackoffEfficacy s lh pm
+    s'.target = s.target ∧ s'.state = s.state ∧ s'.lossEwma = s.lossEwma ∧ s'.lossHighSince = s.lossHighSince ∧
+    s'.lossDegraded = s.lossDegraded ∧ s'.rttEwma = s.rttEwma ∧ s'.rttVar = s.rttVar ∧
+    s'.fastRecovery = s.fastRecovery := by
+  intro s'
+  simp only [s', updateBackoffEfficacy]
+  repeat' split
+  all_goals simp
+
+theorem chooseState_ne_bootstrap (a b c : Bool) (i : F) : chooseState a b c i ≠ .bootstrap := by
+  unfold chooseState; repeat' split
+  all_goals simp
+
+theorem updateLossEwma_spec (s : St F) (lossPm now : Nat) :
+    let s' := updateLossEwma s lossPm now
+    let ew := nextLossEwma s lossPm now
+    s'.lossEwma = ew ∧ s'.target = s.target ∧ s'.state = s.state ∧ s'.rttEwma = s.rttEwma ∧
+    (Scalar.lt cEnter ew = true →
+      (s.lossHighSince = 0 → s'.lossHighSince = now ∧ s'.lossDegraded = s.lossDegraded) ∧
+      (s.lossHighSince ≠ 0 → s'.lossHighSince = s.lossHighSince ∧
+        s'.lossDegraded = (s.lossDegraded || decide (now - s.lossHighSince ≥ 4000)))) ∧
+    (Scalar.lt cEnter ew = false →
+      s'.lossHighSince = 0 ∧ s'.lossDegraded = (s.lossDegraded && !Scalar.lt ew cClear)) := by
+  intro s' ew
+  simp only [s', ew, updateLossEwma, LOSS_DEGRADE_SUSTAIN_MS_eq]
+  by_cases h1 : Scalar.lt cEnter (nextLossEwma s lossPm now) = true
+  · by_cases h2 : s.lossHighSince = 0
+    · simp [h1, h2]
+    · by_cases h3 : now - s.lossHighSince ≥ 4000 <;> simp [h1, h2, h3]
+  · by_cases h2 : Scalar.lt (nextLossEwma s lossPm now) cClear = true <;> simp [h1, h2]
+
+/-- A tick that finds no usable RTT estimate: Bootstrap at the floor, latch fields untouched. -/
+theorem tick_boot (s : St F) (obs now : Nat) (h : noRtt (evictExpired s now) = true) :
+    let s' := tick s obs now
+    s'.state = .bootstrap ∧ s'.target = 100000 ∧ s'.lossDegraded = s.lossDegraded ∧
+      s'.lossHighSince = s.lossHighSince ∧ s'.lossEwma = s.lossEwma ∧ s'.rttEwma = s.rttEwma := by
+  intro s'
+  simp only [s', tick, h, if_true, MIN_TARGET_BPS_eq]
+  simp [evictExpired]
+
+/-- A tick with an RTT estimate. -/
+theorem tick_run (s : St F) (obs now : Nat) (h : noRtt (evictExpired s now) = false) :
+    let s0 := evictExpired s now
+    let s' := tick s obs now
+    let s1 := updateLossEwma s0 (lossPermille s0) now
+    let so := saneObserved (F := F) s.target obs
+    let t0 := if s.state = .bootstrap then seedTarget so else s.target
+    s'.lossDegraded = s1.lossDegraded ∧ s'.lossHighSince = s1.lossHighSince ∧ s'.lossEwma = s1.lossEwma ∧
+      s'.rttEwma = s.rttEwma ∧ s'.state ≠ .bootstrap ∧
+      s'.target = tickTarget (F := F) s'.state s.state s'.climbMode t0 so := by
+  intro s0 s' s1 so t0
+  have k := updateLossEwma_spec s0 (lossPermille s0) now
+  obtain ⟨k1, k2, k3, k4, -⟩ := k
+  have b := updateBackoffEfficacy_keeps s1 (decide (lossPermille s0 > LOSS_BACKOFF_PERMILLE)) (lossPermille s0)
+  obtain ⟨b1, b2, b3, b4, b5, b6, b7, b8⟩ := b
+  have e0t : s0.target = s.target := rfl
+  have e0s : s0.state = s.state := rfl
+  have e0r : s0.rttEwma = s.rttEwma := rfl
+  simp only [s', tick, show noRtt (evictExpired s now) = false from h, Bool.false_eq_true, if_false]
+  refine ⟨b5, b4, b3, ?_, chooseState_ne_bootstrap _ _ _ _, ?_⟩
+  · show (updateBackoffEfficacy s1 _ _).rttEwma = s.rttEwma
+    rw [b6, k4, e0r]
+  · show tickTarget _ (updateBackoffEfficacy s1 _ _).state _ _ _ = _
+    rw [b2, k3, e0s, k2, e0t]
+end generic
+
+theorem clampNat_bounds (x : Nat) :
+    100000 ≤ clampNat x 100000 200000000 ∧ clampNat x 100000 200000000 ≤ 200000000 := by
+  unfold clampNat; split <;> (try split) <;> omega
+
+theorem tickTarget_bounds {F : Type} [Scalar F] (next ps : CcState) (mode : ClimbMode) (t so : Nat) :
+    100000 ≤ tickTarget (F := F) next ps mode t so ∧ tickTarget (F := F) next ps mode t so ≤ 200000000 := by
+  simp only [tickTarget, MIN_TARGET_BPS_eq, MAX_TARGET_BPS_eq]; exact clampNat_bounds _
+
+theorem seedTarget_bounds (so : Nat) : 1000000 ≤ seedTarget so ∧ seedTarget so ≤ 200000000 ∧
+    seedTarget so = min (max so 1000000) 200000000 := by
+  simp only [seedTarget, INITIAL_TARGET_BPS_eq, MIN_TARGET_BPS_eq, MAX_TARGET_BPS_eq, clampNat]
+  by_cases h : so < 1000000 <;> simp only [h, if_true, if_false] <;> repeat' split
+  all_goals omega
+
+theorem stepPermille_le (m : ClimbMode) : stepPermille m ≤ 60 := by
+  cases m <;> simp [stepPermille]
 
 end Srtla.LinkCc
